@@ -77,6 +77,13 @@ std::uint64_t& t_aff(task* t) { return t->m_reserved[3]; }
 
 int me() { return vs_active() ? vs_self() : 0; }
 
+// Task-level scheduling points only matter when there is a thief that could take a task; with a
+// single modelled TBB thread per client they would only multiply client interleavings at points
+// that are free of inter-client synchronisation.
+void tpoint(const char* tag) {
+  if (g_workers > 1) vs_point(tag);
+}
+
 bool matches(task* t, std::intptr_t iso) { return iso == 0 || t_iso(t) == iso; }
 
 task* pop_own(int s, std::intptr_t iso) {
@@ -132,7 +139,7 @@ void run_task(task* t) {
     }
     t = next;
     slots[s].isolation = saved;
-    vs_point("task-end");
+    tpoint("task-end");
   }
 }
 
@@ -197,7 +204,7 @@ void spawn(task& t, task_group_context& ctx) {
   TSAN_RELEASE(&t);
   slots[me()].pool.push_back(&t);
   ++g_spawns;
-  vs_point("spawn");
+  tpoint("spawn");
 }
 void spawn(task& t, task_group_context& ctx, slot_id id) {
   ensure_workers();
@@ -205,19 +212,19 @@ void spawn(task& t, task_group_context& ctx, slot_id id) {
   TSAN_RELEASE(&t);
   slots[me()].pool.push_back(&t);
   ++g_spawns;
-  vs_point("spawn-affine");
+  tpoint("spawn-affine");
 }
 void execute_and_wait(task& t, task_group_context& t_ctxt, wait_context& w, task_group_context&) {
   ensure_workers();
   prep(t, t_ctxt, d1::no_slot);
   TSAN_RELEASE(&t);
-  vs_point("execute_and_wait");
+  tpoint("execute_and_wait");
   run_task(&t);
   dispatch(&w);
 }
 void wait(wait_context& w, task_group_context&) {
   ensure_workers();
-  vs_point("wait");
+  tpoint("wait");
   dispatch(&w);
 }
 slot_id execution_slot(const execution_data*) { return (slot_id)me(); }
